@@ -40,7 +40,7 @@ def _phi_alts(c):
 
 def run(prog, rep):
     rep.rule("C16.G", "check_globals: decision table on `globals.get(name)` / default / quantifier")
-    cg = [f for f in prog.fns.values() if f.name == "check_globals"]
+    cg = [f for f in prog.shape_fns() if f.name == "check_globals"]
     if len(cg) != 1:
         rep.violation("C16.G", "anchor-lost:check_globals", "", "not found")
     else:
@@ -123,7 +123,7 @@ def run(prog, rep):
         rep.check(len(forward_loops(body, tr, r"arg:self\.globals$")) == 1, "C16.G", "check_globals :: all declarations", f.loc(), "for global in &self.globals", "declared globals are not all visited")
     # drivers
     rep.rule("C16.D", "both drivers run check_globals on a private nested layer and stop on its error before any matching")
-    for f in [x for x in prog.fns.values() if x.name in ("execute_strict_into", "execute_lazy_into") and x.kind == "assocfn"]:
+    for f in [x for x in prog.shape_fns() if x.name in ("execute_strict_into", "execute_lazy_into") and x.kind == "assocfn"]:
         body, tr = f.body, Tracer(f.body)
         cgc = [(b, t) for b, t in body.calls() if is_callee(t, r"check_globals$")]
         vis = [b for b, t in body.calls() if is_callee(t, r"try_visit_matches_(strict|lazy)$")]
@@ -147,13 +147,13 @@ def run(prog, rep):
         rep.check(ok, "C16.D", "%s :: check_globals first" % f.id, f.loc(), "check_globals(&mut nested)? dominates matching; execution sees the nested layer", "globals are not validated on a private nested layer before matching")
     # nested lookup uses the full lookup
     rep.rule("C16.N", "a nested variable set resolves a miss through its outer set's complete lookup (own map, then that set's context)")
-    ti = [f for f in prog.fns.values() if f.self_path == "tsg::variables::Globals" and f.trait == "tsg::variables::Variables" and f.name == "get"]
+    ti = [f for f in prog.shape_fns() if f.self_path == "tsg::variables::Globals" and f.trait == "tsg::variables::Variables" and f.name == "get"]
     if len(ti) == 1:
         r = canon(Tracer(ti[0].body).local(0))
         rep.check(re.match(r"^(variables::)?Globals::get\(&\*arg:self, &\*arg:name\)$", r) is not None, "C16.N", "Globals as Variables::get", ti[0].loc(), "delegates to Globals::get", "outer-set lookup is `%s`: values supplied through an outer set are not found" % r[:120])
     else:
         rep.violation("C16.N", "anchor-lost:Globals as Variables", "", "not found")
-    gg = [f for f in prog.fns.values() if f.self_path == "tsg::variables::Globals" and f.name == "get" and f.trait is None]
+    gg = [f for f in prog.shape_fns() if f.self_path == "tsg::variables::Globals" and f.name == "get" and f.trait is None]
     if len(gg) == 1:
         r = canon(Tracer(gg[0].body).local(0))
         from ..engines.e5_writers import lookup_shape
@@ -161,7 +161,7 @@ def run(prog, rep):
         rep.check(why is None, "C16.N", "Globals::get", gg[0].loc(), "own map, else context", "Globals::get is `%s` (%s)" % (r[:100], why))
     # globals first, guards before local writes
     # nested(): the new set always keeps the given set as its context
-    nf = [f for f in prog.fns.values() if f.name == "nested" and f.self_path == "tsg::variables::Globals"]
+    nf = [f for f in prog.shape_fns() if f.name == "nested" and f.self_path == "tsg::variables::Globals"]
     if len(nf) == 1:
         f = nf[0]
         tr = Tracer(f.body)
@@ -179,7 +179,7 @@ def run(prog, rep):
     rep.rule("C16.L", "unscoped lookups consult the globals first; local add/set is dominated by the guard rejecting global names (strict, lazy, checker)")
     look = [("tsg::ast::UnscopedVariable", "get", "strict"), ("tsg::ast::UnscopedVariable", "evaluate_lazy", "lazy"), ("tsg::ast::UnscopedVariable", "check_get", "checker")]
     for ty, nm, mode in look:
-        fl = [f for f in prog.fns.values() if f.self_path == ty and f.name == nm]
+        fl = [f for f in prog.shape_fns() if f.self_path == ty and f.name == nm]
         if len(fl) != 1:
             rep.violation("C16.L", "anchor-lost:%s %s" % (mode, nm), "", "not found")
             continue
@@ -201,7 +201,7 @@ def run(prog, rep):
               ("tsg::ast::UnscopedVariable", "add_lazy", "lazy", "DuplicateVariable"), ("tsg::ast::UnscopedVariable", "set_lazy", "lazy", "CannotAssignImmutableVariable"),
               ("tsg::ast::UnscopedVariable", "check_add", "checker", "CannotHideGlobalVariable"), ("tsg::ast::UnscopedVariable", "check_set", "checker", "CannotSetGlobalVariable")]
     for ty, nm, mode, err in guards:
-        fl = [f for f in prog.fns.values() if f.self_path == ty and f.name == nm]
+        fl = [f for f in prog.shape_fns() if f.self_path == ty and f.name == nm]
         if len(fl) != 1:
             rep.violation("C16.L", "anchor-lost:%s %s" % (mode, nm), "", "not found")
             continue
@@ -223,7 +223,7 @@ def run(prog, rep):
         rep.check(ok, "C16.L", "%s %s :: global guard" % (mode, nm), f.loc(), "globals.get(name).is_some() → %s, before the local map is touched" % err, "%s can %s a name that is a global" % (nm, "define" if "add" in nm else "assign"))
     # every definition form reaches the guarded functions: no caller writes ctx.locals / exec.locals directly
     n = 0
-    for f in prog.fns.values():
+    for f in prog.shape_fns():
         if f.body is None or f.crate.prefix != "tsg" or f.file not in ("src/checker.rs", "src/execution/strict.rs", "src/execution/lazy.rs"):
             continue
         tr = None
@@ -238,7 +238,7 @@ def run(prog, rep):
     rep.floor("C16.L", n, 6, "writes of the local variable maps")
     # parser: global declaration
     rep.rule("C16.P", "parse_global stores the declared name, quantifier and default; a global's declaration is pushed to file.globals")
-    pg = [f for f in prog.fns.values() if f.name == "parse_global"]
+    pg = [f for f in prog.shape_fns() if f.name == "parse_global"]
     if len(pg) == 1:
         f = pg[0]
         tr = Tracer(f.body)
